@@ -1,4 +1,162 @@
-import Sigc.Basic
-/-! property theorems for C10 (stub, replaced by the real statements) -/
+import Sigc.AdaptLemmas
+/-!
+  C10 — adaptors transform arguments and results exactly as documented.
+
+  `callImpl` follows the call operators of `sigc++/adaptors/*.h` literally (tuple slicing with
+  `tuple_start` / `tuple_end` (recursive, via `tuple_cdr`) / `tuple_transform_each`); `callSpec` is the
+  documentation (insert at I, append, erase index, drop last, convert, constant result, composition,
+  catcher iff throw, identity).  All theorems hold for every arity, every position, every number of
+  bound values and every nesting depth.
+-/
 namespace Sigc.C10
+open Sigc.Adapt
+
+/-- `tuple_start<n>(t)` is the first `n` elements -/
+theorem tupleStart_eq_take (n : Nat) (l : List α) : tupleStart n l = l.take n :=
+  tupleStart_take n l
+
+example : tupleStart 2 [10, 20, 30, 40] = [10, 20] := by decide
+
+/-- the `tuple_cdr` recursion of `tuple_end<k>(t)` (with its `size - len == 0 / 1` branches) yields the last `k` elements -/
+theorem tupleEnd_eq_drop (k : Nat) (l : List α) (h : k ≤ l.length) :
+    tupleEnd k l = l.drop (l.length - k) :=
+  tupleEnd_drop k l h
+
+example : tupleEnd 2 [10, 20, 30, 40, 50] = [40, 50] ∧ tupleEnd 4 [10, 20, 30, 40, 50] = [20, 30, 40, 50]
+    ∧ tupleEnd 5 [10, 20, 30, 40, 50] = [10, 20, 30, 40, 50] ∧ tupleEnd 0 [10, 20] = [] := by decide
+
+/-- `tuple_transform_each<TransformEachInvoker>(bound_)` yields the invoked bound values, all of them, in order -/
+theorem bound_in_order (f : α → β) (bs : List α) : invokeEach f bs = bs.map f :=
+  invokeEach_eq_map f bs
+
+example : invokeEach (fun n : Nat => n + 1) [1, 2, 3] = [2, 3, 4] := by decide
+
+/-- `bind<I>(f, b...)` calls `f` with the bound values inserted at position `I` — every arity, every `I ≤ n`,
+    every number of bound values -/
+theorem bind_insert (i : Nat) (bs args : List Val) (f : FExpr) (h : i ≤ args.length) :
+    callImpl (.un (.bind (some i) bs) f) args = callImpl f (args.take i ++ bs ++ args.drop i) := by
+  have := argsImpl_eq_argsSpec (.bind (some i) bs) args (by simp [nodeArity, h])
+  simp only [callImpl, this, argsSpec, Outcome.mapRes]
+  cases (callImpl f (args.take i ++ bs ++ args.drop i)) with
+  | mk log res => cases res <;> rfl
+
+example : (callImpl (.un (.bind (some 1) [.num .int 7, .num .int 8]) (.leaf 0 [.int, .int, .int, .int] none false))
+    [.num .int 1, .num .int 2]).log = [⟨0, [.num .int 1, .num .int 7, .num .int 8, .num .int 2]⟩] := by decide
+
+/-- `bind(f, b...)` appends the bound values -/
+theorem bind_append (bs args : List Val) (f : FExpr) :
+    callImpl (.un (.bind none bs) f) args = callImpl f (args ++ bs) := by
+  have := argsImpl_eq_argsSpec (.bind none bs) args (by simp [nodeArity])
+  simp only [callImpl, this, argsSpec, Outcome.mapRes]
+  cases (callImpl f (args ++ bs)) with
+  | mk log res => cases res <;> rfl
+
+example : (callImpl (.un (.bind none [.num .int 7, .num .int 8]) (.leaf 0 [.int, .int, .int] none false))
+    [.num .int 1]).log = [⟨0, [.num .int 1, .num .int 7, .num .int 8]⟩] := by decide
+
+/-- `hide<I>(f)` calls `f` without argument `I` — every arity, every `I < n` -/
+theorem hide_erase (i : Nat) (args : List Val) (f : FExpr) (h : i < args.length) :
+    callImpl (.un (.hide (some i)) f) args = callImpl f (args.eraseIdx i) := by
+  have := argsImpl_eq_argsSpec (.hide (some i)) args (by simp [nodeArity, h])
+  simp only [callImpl, this, argsSpec, Outcome.mapRes]
+  cases (callImpl f (args.eraseIdx i)) with
+  | mk log res => cases res <;> rfl
+
+example : (callImpl (.un (.hide (some 1)) (.leaf 0 [.int, .int, .int] none false))
+    [.num .int 1, .num .int 2, .num .int 3, .num .int 4]).log = [⟨0, [.num .int 1, .num .int 3, .num .int 4]⟩] := by
+  decide
+
+/-- `hide(f)` (position -1) calls `f` without the last argument -/
+theorem hide_last (args : List Val) (f : FExpr) (h : args ≠ []) :
+    callImpl (.un (.hide none) f) args = callImpl f args.dropLast := by
+  have hl : 0 < args.length := List.length_pos_iff.mpr h
+  have := argsImpl_eq_argsSpec (.hide none) args (by simp [nodeArity, hl])
+  simp only [callImpl, this, argsSpec, Outcome.mapRes]
+  cases (callImpl f args.dropLast) with
+  | mk log res => cases res <;> rfl
+
+example : (callImpl (.un (.hide none) (.leaf 0 [.int, .int] none false))
+    [.num .int 1, .num .int 2, .num .int 3]).log = [⟨0, [.num .int 1, .num .int 2]⟩] := by decide
+
+/-- the code equals the documentation for every functor expression (adaptors nested to any depth) and all arguments -/
+theorem impl_eq_spec (e : FExpr) (args : List Val) (h : wellTyped e args.length = true) :
+    callImpl e args = callSpec e args :=
+  callImpl_eq_callSpec e args h
+
+-- hide(bind<1>(compose(s, g), 2.7) ) applied to three arguments: non-trivial, well-typed
+example :
+    let e := FExpr.un (.hide none) (.un (.bind (some 1) [.num .dbl 27])
+      (.compose1 (.leaf 1 [.long] (some .long) false) (.leaf 0 [.int, .int, .int] (some .dbl) false)))
+    wellTyped e 3 = true ∧
+    callImpl e [.num .int 1, .num .int 5, .num .int 9]
+      = ⟨[⟨0, [.num .int 1, .num .int 2, .num .int 5]⟩, ⟨1, [.num .long 20]⟩], .ok (.num .long 120)⟩ := by
+  decide
+
+/-- the result clauses of the statement, as the code computes them -/
+theorem result_clauses (f : FExpr) (args : List Val) (v : Val) (h : (callImpl f args).res = .ok v) :
+    (∀ r, (callImpl (.un (.retypeReturn r) f) args).res = .ok (conv r v))
+    ∧ (callImpl (.un .hideReturn f) args).res = .ok .unit
+    ∧ (∀ b, (callImpl (.un (.bindReturn b) f) args).res = .ok b)
+    ∧ (∀ n, callImpl (.un (.trackObj n) f) args = callImpl f args)
+    ∧ (∀ c, callImpl (.exceptionCatch f c) args = callImpl f args)
+    ∧ (∀ s, (callImpl (.compose1 s f) args).res = (callImpl s [v]).res) := by
+  refine ⟨?_, ?_, ?_, ?_, ?_, ?_⟩
+  · intro r; simp [callImpl, argsImpl, Outcome.mapRes, h, Res.map, resOf]
+  · simp [callImpl, argsImpl, Outcome.mapRes, h, Res.map, resOf]
+  · intro b; simp [callImpl, argsImpl, Outcome.mapRes, h, Res.map, resOf]
+  · intro n
+    simp only [callImpl, argsImpl, Outcome.mapRes]
+    cases callImpl f args with
+    | mk log res => cases res <;> rfl
+  · intro c; simp [callImpl, h]
+  · intro s; simp [callImpl, Outcome.andThen, h]
+
+example : (callImpl (.leaf 3 [.dbl] (some .dbl) false) [.num .dbl 27]).res = .ok (.num .dbl 3025) := by decide
+
+/-- `exception_catch(f, c)` returns `c()` exactly when `f` throws -/
+theorem exception_catch_throw (f c : FExpr) (args : List Val) (h : (callImpl f args).res = .threw) :
+    (callImpl (.exceptionCatch f c) args).res = (callImpl c []).res
+    ∧ (callImpl (.exceptionCatch f c) args).log = (callImpl f args).log ++ (callImpl c []).log := by
+  simp [callImpl, h]
+
+example : (callImpl (.leaf 3 [.int] (some .int) true) [.num .int 1]).res = .threw := by decide
+
+/-- direct call, call through a slot, emission of a signal holding that single slot: same received arguments,
+    same result (the slot's declared return type being the functor's result type) -/
+theorem routes_agree (e : FExpr) (args : List Val) (s : SlotM) (hf : s.f = e) (hc : s.callable = true)
+    (hret : (direct e args).res.map (retConv s.ret) = (direct e args).res) :
+    s.call args = direct e args ∧ viaSignal s.ret [s] args = direct e args := by
+  have hcall : callIt s args = direct e args := by
+    simp only [callIt, direct, Outcome.mapRes, hf] at hret ⊢
+    rw [hret]
+  constructor
+  · simp [SlotM.call, hc, hcall]
+  · cases hr : s.ret with
+    | none =>
+      simp only [viaSignal, emitVoid, hc, if_true, sigCall, hcall, List.nil_append]
+      have hret' := hret
+      simp only [hr] at hret'
+      cases hd : direct e args with
+      | mk log res =>
+        simp only [hd] at hret' ⊢
+        cases res with
+        | threw => rfl
+        | ok v =>
+          simp only [Res.map, retConv, Res.ok.injEq] at hret'
+          simp [Res.map, hret'.symm]
+    | some t =>
+      simp only [viaSignal, emitValue, List.isEmpty_cons, List.dropWhile, hc, Bool.not_true, sigCall, hcall,
+        List.nil_append]
+      cases hd : direct e args with
+      | mk log res =>
+        cases res with
+        | threw => simp
+        | ok v => simp [emitLoop]
+
+example :
+    let e := FExpr.un (.bind (some 0) [.num .int 4]) (.leaf 0 [.int, .dbl] (some .dbl) false)
+    let s : SlotM := ⟨false, false, some .dbl, e⟩
+    s.callable = true ∧ (direct e [.num .dbl 27]).res.map (retConv s.ret) = (direct e [.num .dbl 27]).res
+      ∧ direct e [.num .dbl 27] = ⟨[⟨0, [.num .int 4, .num .dbl 27]⟩], .ok (.num .dbl 85)⟩ := by decide
+
 end Sigc.C10
